@@ -19,7 +19,7 @@ from .model import dotted
 
 
 class PathSummary:
-    __slots__ = ("facts", "env", "ret", "exc", "nodes", "calls", "looped", "returned")
+    __slots__ = ("facts", "env", "ret", "exc", "nodes", "calls", "looped", "returned", "events")
 
     def __init__(self):
         self.facts = frozenset()
@@ -30,6 +30,7 @@ class PathSummary:
         self.calls = []      # (cfg node id, canonical call term, facts known at that point) of expression statements, in order
         self.looped = False
         self.returned = False
+        self.events = []     # ordered effects: ("store", target text, value term) | ("del", target text) | ("call", term)
 
     def has(self, pred):
         return any(pred(k, t) for (k, t) in self.facts)
@@ -105,8 +106,15 @@ def summarize(fi, max_paths=400, unroll=1, follow_exc=False):
             if node.kind == "stmt" and st is not None and node.ast is st:
                 if isinstance(st, ast.Assign):
                     v = _expr(st.value, env)
+                    for c_ in _calls_in(st.value, env):
+                        ps.events.append(("call", c_))
                     for t in st.targets:
                         _assign(t, v, env)
+                        if not isinstance(t, ast.Name):
+                            ps.events.append(("store", _target_text(t, env), v))
+                elif isinstance(st, ast.Delete):
+                    for t in st.targets:
+                        ps.events.append(("del", _target_text(t, env)))
                 elif isinstance(st, ast.AnnAssign) and st.value is not None:
                     _assign(st.target, _expr(st.value, env), env)
                 elif isinstance(st, ast.AugAssign):
@@ -116,6 +124,7 @@ def summarize(fi, max_paths=400, unroll=1, follow_exc=False):
                     _assign(st.target, S.canon(S.xor(cur, r) if op == "BitXor" else ("op", op, cur, r)), env)
                 elif isinstance(st, ast.Expr) and not (isinstance(st.value, ast.Constant)):
                     ps.calls.append((nid, _expr(st.value, env), ps.facts))
+                    ps.events.append(("call", _expr(st.value, env)))
                 elif isinstance(st, ast.Assert):
                     ghosts = tuple(p for p in params if p not in rebound)
                     r = refine_bool(st.test, True, ps.facts, atom_for(ghosts), join)
@@ -123,6 +132,8 @@ def summarize(fi, max_paths=400, unroll=1, follow_exc=False):
                         return
                     ps.facts = r
             elif node.kind == "return":
+                for c_ in (_calls_in(st.value, env) if st.value is not None else []):
+                    ps.events.append(("call", c_))
                 ps.ret = _expr(st.value, env) if st.value is not None else ("const", None)
                 ps.returned = True
             elif node.kind == "raise_stmt":
@@ -166,10 +177,32 @@ def summarize(fi, max_paths=400, unroll=1, follow_exc=False):
         n.calls = list(ps.calls)
         n.looped = ps.looped
         n.returned = ps.returned
+        n.events = list(ps.events)
         return n
 
     walk(cfg.entry, PathSummary(), {}, frozenset())
     return out
+
+
+def _calls_in(e, env):
+    """Canonical terms of the calls inside an expression, innermost first (evaluation order)."""
+    from .cfg import calls_in_order
+    out = []
+    for c in calls_in_order(e):
+        try:
+            out.append(_expr(c, env))
+        except Exception:
+            pass
+    return out
+
+
+def _target_text(t, env):
+    """'self.attr' / 'name.attr' / ('sub', base text, index term)"""
+    if isinstance(t, ast.Subscript):
+        d = dotted(t.value) or ast.unparse(t.value)
+        idx = ("slice",) if isinstance(t.slice, ast.Slice) else _expr(t.slice, env)
+        return ("sub", d, idx)
+    return dotted(t) or ast.unparse(t)
 
 
 def _assign(t, v, env):
@@ -200,3 +233,9 @@ def normal(paths):
 
 def raising(paths, exc=None):
     return [p for p in paths if p.exc is not None and (exc is None or p.exc.split(".")[-1] in ((exc,) if isinstance(exc, str) else exc))]
+
+
+def stores_params(fi, names):
+    """Every normal path of the constructor stores each named parameter, unchanged, in the attribute of the same name."""
+    ps = [p for p in summarize(fi) if p.exc is None]
+    return bool(ps) and all(p.store(n) == ("var", n) for p in ps for n in names)
